@@ -487,3 +487,57 @@ def g7(ctx):
 
 
 RULES.append(g7)
+
+
+@rule("G8", doc="symmetry transfer on a class merge: the generators of the deprecated class are renamed by a map from ITS slots to the survivor's slots (deprecated.m ; survivor.m^-1), and handed to the survivor's group")
+def g8(ctx):
+    crate = ctx.lib()
+    reg = C.merge_region(crate)
+    n = 0
+    for fid in sorted(reg["members"]):
+        b = crate.bodies[fid]
+        for c in b.calls:
+            if not (c.callee and c.callee.name in ("add_set", "add") and c.callee.is_(c.callee.name, GRP)) or b.blocks[c.bb]["cleanup"]:
+                continue
+            recv = b.role_of_operand(c.args[0])
+            arg = b.role_of_operand(c.args[1])
+
+            def class_of(r):
+                for x in role_walk(r):
+                    if isinstance(x, tuple) and x[0] == "call" and x[1] in ("get_mut", "index", "index_mut", "get") and len(x[3]) == 2 and role_mentions_field(x[3][0], "classes"):
+                        k = strip_role(x[3][1])
+                        if isinstance(k, tuple) and k[0] == "field" and k[2] == "id":
+                            return strip_role(k[1])
+                return None
+            T = class_of(recv)
+            gens = [x for x in role_walk(arg) if isinstance(x, tuple) and x[0] == "call" and x[1] in ("generators", "all_perms")]
+            F = class_of(gens[0][3][0]) if gens and gens[0][3] else None
+            if T is None or F is None:
+                continue
+            n += 1
+            ctx.check(T != F, "transfer-between-classes:" + C.fkey(b), "generators of %s go to the group of %s" % (role_str(F), role_str(T)), "the merge re-adds a class's generators to its own group", where_of(b, c.bb))
+            # every slot-map lookup inside the transporting closures uses a map  F.m ; T.m^-1
+            maps = []
+            for sub in b.all_bodies():
+                if sub is b:
+                    continue
+                for x in sub.calls:
+                    if x.callee and x.callee.name in ("index", "get", "contains_key") and x.args and not sub.blocks[x.bb]["cleanup"]:
+                        r = strip_role(sub.role_of_operand(x.args[0]))
+                        if isinstance(r, tuple) and r[0] == "call" and r[1] in ("compose", "compose_partial", "compose_fresh") and len(r[3]) == 2:
+                            maps.append((sub, x, r))
+            ctx.floor("slot-map lookups in the symmetry transport of " + C.short(fid), len(maps), 1)
+            for sub, x, r in maps:
+                a0 = strip_role(r[3][0])
+                a1 = strip_role(r[3][1])
+                src = strip_role(a0[1]) if isinstance(a0, tuple) and a0[0] == "field" and a0[2] == "m" else None
+                inv = strip_role(a1[3][0]) if isinstance(a1, tuple) and a1[0] == "call" and a1[1] == "inverse" and a1[3] else None
+                dst = strip_role(inv[1]) if isinstance(inv, tuple) and inv[0] == "field" and inv[2] == "m" else None
+                ok = src == F and dst == T
+                ctx.check(ok, "transport-map-direction:" + C.fkey(b), "the transported symmetries are renamed by %s.m ; %s.m^-1 (slots of the deprecated class -> slots of the survivor)" % (role_str(F), role_str(T)),
+                          "%s renames the generators of %s with the map %s: it must be %s.m ; %s.m^-1 (from the deprecated class's slots to the survivor's). With the converse map the lookups miss (or hit unrelated slots) and the deprecated class's symmetries are silently dropped or corrupted on every merge" % (
+                              C.short(fid), role_str(F), role_str(r)[:80], role_str(F), role_str(T)), where_of(sub, x.bb))
+    ctx.floor("symmetry transfers in the merge region", n, 1)
+
+
+RULES.append(g8)
